@@ -28,6 +28,43 @@ pub(crate) fn note_propagation_round() {
     PROPAGATION_ROUNDS.with(|c| c.set(c.get() + 1));
 }
 
+thread_local! {
+    static STEPS: std::cell::Cell<u64> = const { std::cell::Cell::new(0) };
+    static STEP_LIMIT: std::cell::Cell<u64> = const { std::cell::Cell::new(u64::MAX) };
+}
+
+/// Payload of the panic that is raised when the step limit set with
+/// [`verif_set_step_limit`] is exceeded.
+pub struct VerifStepLimitExceeded;
+
+/// Resets the step counter of the current thread and sets the number of
+/// solver loop iterations (decision loop, propagation, watch-list traversal,
+/// conflict analysis) after which the solver unwinds with
+/// [`VerifStepLimitExceeded`]. This gives an external monitor a logical
+/// (clock-free) bound on loops that never call the dependency provider.
+pub fn verif_set_step_limit(limit: u64) {
+    STEPS.with(|c| c.set(0));
+    STEP_LIMIT.with(|c| c.set(limit));
+}
+
+/// Number of solver loop iterations counted on this thread since the last
+/// call to [`verif_set_step_limit`].
+pub fn verif_steps() -> u64 {
+    STEPS.with(|c| c.get())
+}
+
+#[inline]
+pub(crate) fn tick() {
+    let n = STEPS.with(|c| {
+        let n = c.get() + 1;
+        c.set(n);
+        n
+    });
+    if n > STEP_LIMIT.with(|c| c.get()) {
+        std::panic::panic_any(VerifStepLimitExceeded);
+    }
+}
+
 /// What a variable of the SAT problem stands for.
 #[derive(Clone, Copy, Debug, PartialEq, Eq, Hash, PartialOrd, Ord)]
 pub enum VerifVar {
